@@ -31,7 +31,7 @@ ASSUMPTIONS = [
     "an enumeration of all alignments",
     "dyadic costs: float32 cost sums are exact, so no tie exists only in floating point",
     "normalised values compared with relative tolerance 1e-6 (one float32 division)",
-    "loss compared in float64 with tolerance 5e-7 + 5e-6*|expected|",
+    "loss compared in float64: per entry within 5e-7*S + 5e-6*|expected| (S = max(1, largest admissible error rate of the batch)), totals within sqrt(N*M) times the absolute part (float32 cancellation under sub_avg)",
     "USE_JIT off (library runs as plain Python)",
 ]
 BUDGET = {
@@ -378,6 +378,7 @@ def _exec_loss(case, mon):
     nontrivial = False
     # admissible loss rows: one per choice of admissible error rates of the row's samples
     row_cands = []
+    scale = [1.0]  # largest admissible error rate of the batch (>= 1): float32 error scales with it
     for n in range(N):
         sets = []
         for m in range(M):
@@ -393,6 +394,7 @@ def _exec_loss(case, mon):
             if len(r) == 0:
                 mon.stat("loss_empty_ref_pairs")
             sets.append([float(x) for x in rates])
+            scale[0] = max(scale[0], float(rates[-1]))
         p = _softmax64(lp64[n])
         cands = []
         if math.prod(len(x) for x in sets) > 20000:
@@ -404,15 +406,18 @@ def _exec_loss(case, mon):
         row_cands.append(cands)
     got = out.double()
 
-    def near(a, b):
-        return abs(a - b) <= 5e-7 + 5e-6 * abs(b)
+    def tol(b, total=False):
+        return 5e-7 * scale[0] * (math.sqrt(N * M) if total else 1.0) + 5e-6 * abs(b)
+
+    def near(a, b, total=False):
+        return abs(a - b) <= tol(b, total)
 
     if red == "none":
         for n in range(N):
             g = got[n].tolist()
             ok = any(all(near(g[m], cand[m]) for m in range(M)) for cand in row_cands[n])
             if ok:
-                best = min(max(abs(g[m] - cand[m]) / (5e-7 + 5e-6 * abs(cand[m])) for m in range(M))
+                best = min(max(abs(g[m] - cand[m]) / tol(cand[m]) for m in range(M))
                            for cand in row_cands[n])
                 mon.dev("loss-value(fraction of tolerance)", best, 1.0)
             mon.check(ok and all(x == x for x in g), "loss-value", observed=g,
@@ -440,10 +445,10 @@ def _exec_loss(case, mon):
         if red == "mean":
             totals = {t / (N * M) for t in totals}
         g = float(got)
-        ok = any(near(g, t) for t in totals)
+        ok = any(near(g, t, True) for t in totals)
         if ok:
             mon.dev("loss-value(fraction of tolerance)",
-                    min(abs(g - t) / (5e-7 + 5e-6 * abs(t)) for t in totals), 1.0)
+                    min(abs(g - t) / tol(t, True) for t in totals), 1.0)
         if not ok and space > 200000 and g == g:
             # the hinted assignment does not explain the total, and the full set of admissible totals
             # was not enumerated: undecided rather than an alarm
